@@ -71,3 +71,30 @@ Print Assumptions C13_abandoned_never_written.
 Print Assumptions C13_generated_ok.
 Print Assumptions C13_senders_use_the_modelled_hand_off.
 Print Assumptions C13_source_notifier_immediately_before_write.
+
+(* ---- the source of callContainer.nextSeqid (rpc/call.go), translated statement by statement
+   (Generated.golite_funcs) and run by the GoLite interpreter: returns the counter, increments it with 64-bit
+   two's complement wrap-around, under the mutex; 2^64 successive calls return pairwise distinct numbers, and the
+   next one repeats the first. ---- *)
+From FMP Require Import Model.Generated Model.GoLite Proofs.GoLiteProofs.
+
+Theorem C13_source_nextSeqid : forall permI fuel s, (1 <= fuel)%nat ->
+    run_fun permI fuel golite_funcs name_nextSeqid (seq_state s) =
+    RReturn (VInt s) (with_mutex 1 1 (seq_state (wrap 64 (s + 1)))).
+Proof. exact golite_nextSeqid_spec. Qed.
+
+Theorem C13_source_seqids_distinct_below_2_64 : forall permI (n : nat) fuel s,
+    (1 <= fuel)%nat -> in_range64 s -> (Z.of_nat n <= 2 ^ 64)%Z ->
+    NoDup (seq_returns permI fuel n (seq_state s)).
+Proof. exact golite_seqids_distinct. Qed.
+
+Theorem C13_source_seqids_repeat_after_2_64 : forall permI (n : nat) fuel s,
+    (1 <= fuel)%nat -> in_range64 s -> Z.of_nat n = (2 ^ 64)%Z ->
+    nth n (seq_returns permI fuel (S n) (seq_state s)) VUnit = VInt s /\
+    nth 0 (seq_returns permI fuel (S n) (seq_state s)) VUnit = VInt s /\
+    ~ NoDup (seq_returns permI fuel (S n) (seq_state s)).
+Proof. exact golite_seqids_wrap_refuted. Qed.
+
+Print Assumptions C13_source_nextSeqid.
+Print Assumptions C13_source_seqids_distinct_below_2_64.
+Print Assumptions C13_source_seqids_repeat_after_2_64.
